@@ -638,6 +638,19 @@ func generate(text, pkgPath string) (out []byte, err error, panicked interface{}
 	if err := stub.GeneratePackage(&buf, pkgPath, pkg); err != nil {
 		return nil, fmt.Errorf("GeneratePackage: %v", err), nil
 	}
+	// the entry point behind `go generate` and the stub command writes the same
+	// code into a file; here always the same file, which holds the (longer or
+	// shorter) code of the previous case of this process
+	if dir, err := module(); err == nil {
+		in, out := filepath.Join(dir, "regen.idl"), filepath.Join(dir, "regen.out")
+		if err := os.WriteFile(in, []byte(text), 0o644); err == nil {
+			stub.GenerateStub(in, out, pkgPath) // (it ends the process on an error; the same text has just been parsed and generated)
+			written, err := os.ReadFile(out)
+			if err != nil || !bytes.Equal(written, buf.Bytes()) {
+				return nil, fmt.Errorf("GenerateStub wrote %d bytes into a file used before (%v), GeneratePackage produced %d bytes: the file does not hold the generated code", len(written), err, len(buf.Bytes())), nil
+			}
+		}
+	}
 	return buf.Bytes(), nil, nil
 }
 
